@@ -227,3 +227,79 @@ class World:
                     raise RuntimeError("World.run_until: iteration budget exceeded")
             self.net.clock.t = t
         return pred() if pred is not None else True
+
+
+class _NoThread:
+    def start(self):
+        pass
+
+    def join(self, *a):
+        pass
+
+    def is_alive(self):
+        return False
+
+
+class TDesc:
+    """Descriptor for the blocking GeckoSpa."""
+
+    def __init__(self, spa_id, client_id, dest, name="Spa"):
+        self.identifier = spa_id
+        self.client_identifier = client_id
+        self.name = name
+        self.ipaddress, self.port = dest
+        self.destination = dest
+        self.identifier_as_string = spa_id.decode("latin1")
+
+
+class TRig:
+    """The blocking GeckoSpa against the real simulator, both engines stepped in virtual time.
+    The ping thread is not started; `ping()` performs one iteration of its body."""
+
+    CLIENT_ADDR = ("10.0.0.2", 50001)
+
+    def __init__(self, chooser=None, snapshot=None, peer_cls=None, fates=None):
+        from . import lib
+        from .peers import SPA_ADDR, SPA_ID, SimPeer
+        from geckolib.spa import GeckoSpa
+
+        lib.reset_library()
+        self.world = World(chooser)
+        self.peer = (peer_cls or SimPeer)(snapshot)
+        self.sim_engine = self.world.add(self.peer.sim._socket, "sim", SPA_ADDR)
+        self.peer.addr = SPA_ADDR
+        self.world.net.fates = fates
+        with patched_clock(self.world.clock):
+            self.spa = GeckoSpa(TDesc(SPA_ID, b"IOSgeckomc-0001", SPA_ADDR))
+        self.spa.open = lambda: None
+        self.spa._ping_thread = _NoThread()
+        self.engine = self.world.add(self.spa, "client", self.CLIENT_ADDR)
+
+    def start(self):
+        with patched_clock(self.world.clock):
+            self.spa.start_connect()
+
+    def connect(self, timeout=40.0):
+        self.start()
+        t0 = self.world.now()
+        self.world.run_until(t0 + timeout, pred=lambda: self.spa._is_connected)
+        return self.spa._is_connected
+
+    def ping(self):
+        with patched_clock(self.world.clock):
+            self.spa.queue_send(self.spa._ping_handler, self.spa.sendparms)
+            self.spa.refresh()
+
+    def run_for(self, dt, pred=None):
+        return self.world.run_until(self.world.now() + dt, pred)
+
+    def inject(self, data, src=None):
+        """A datagram from the spa's address into the client's socket (subject to fates)."""
+        from .peers import SPA_ADDR
+
+        self.world.net.clock.t = self.world.now()
+        self.world.net.send(src or SPA_ADDR, self.CLIENT_ADDR, data)
+
+    @property
+    def client_sent(self):
+        return self.engine.mock.sent
